@@ -17,9 +17,11 @@ B = ETF("B")
 F1 = ES(2021, 3)
 F2 = ES(2021, 6)
 CHAIN = FutureChain(contracts=[F1, F2])
+F3 = ES(2021, 9)
+CHAIN1 = FutureChain(contracts=[F1, F2, F3], month=1)     # a chain addressing the DEFERRED month: the contract after the lead
 A_IDX = Index("A")     # another asset class carrying the SAME symbol: contracts are identified by their symbol
-KEYS = [A, B, F1, F2, CHAIN, A_IDX]
-KEYNAMES = ["A", "B", "F1", "F2", "CHAIN", "Index(A)"]
+KEYS = [A, B, F1, F2, CHAIN, A_IDX, CHAIN1]
+KEYNAMES = ["A", "B", "F1", "F2", "CHAIN", "Index(A)", "CHAIN(month=1)"]
 CLOCKS = [F1.last_trading_date - timedelta(days=1), F1.last_trading_date, F1.last_trading_date + timedelta(days=1)]
 # in every palette the first two quotes share their mid (and, like every quote here, their timestamp) but differ in bid/ask;
 # the third shares the bid of none
@@ -69,6 +71,9 @@ def resolve(key, now):
     if key is CHAIN:
         f = lead(now)
         return f.symbol
+    if key is CHAIN1:
+        f = lead(now)
+        return (F2 if f is F1 else F3).symbol
     if isinstance(key, str):
         return key
     return key.symbol
@@ -130,8 +135,8 @@ def same(a, b):
 def compare(ex, books, now):
     """All query forms against the reference."""
     msgs = []
-    query_keys = [A, B, "A", "B", F1, F2, CHAIN, A_IDX]
-    names = ["A", "B", "'A'", "'B'", "F1", "F2", "CHAIN", "Index(A)"]
+    query_keys = [A, B, "A", "B", F1, F2, CHAIN, A_IDX, CHAIN1, F3]
+    names = ["A", "B", "'A'", "'B'", "F1", "F2", "CHAIN", "Index(A)", "CHAIN(month=1)", "F3"]
     exp = []
     for key, name in zip(query_keys, names):
         sym = resolve(key, now)
